@@ -506,6 +506,9 @@ def main(argv):
     sys.path.insert(0, HERE)
     if REPO != '/repo' or True:
         sys.path.insert(0, REPO)
+    if os.environ.get('VERIF_PARAM_TRACE'):
+        import param_trace   # input-space map (notes/param_coverage.md); never enabled by the registered commands
+        param_trace.install(os.environ['VERIF_PARAM_TRACE'])
     try:
         mod = importlib.import_module(pid.lower())
         chk = Check(mod, tier, seed, replay)
